@@ -1,6 +1,7 @@
 package fingerprint
 
 import (
+	"encoding/hex"
 	"fmt"
 	"io"
 	"os"
@@ -115,7 +116,7 @@ func (c *ChecksumChecker) checksum(t *ast.Task) (string, error) {
 }
 
 func (checker *ChecksumChecker) checksumFilePath(t *ast.Task) string {
-	return filepath.Join(checker.tempDir, "checksum", normalizeFilename(t.Name()))
+	return filepath.Join(checker.tempDir, "checksum", stateFilename(t.Name()))
 }
 
 var checksumFilenameRegexp = regexp.MustCompile("[^A-z0-9]")
@@ -123,4 +124,16 @@ var checksumFilenameRegexp = regexp.MustCompile("[^A-z0-9]")
 // replaces invalid characters on filenames with "-"
 func normalizeFilename(f string) string {
 	return checksumFilenameRegexp.ReplaceAllString(f, "-")
+}
+
+// stateFilename is the name of the file that keeps the fingerprint state of the
+// task called name: the normalized name, and for a name that had characters to
+// replace also its exact spelling, so that two different tasks (a:b and a-b)
+// never share a state file.
+func stateFilename(name string) string {
+	normalized := normalizeFilename(name)
+	if normalized == name {
+		return normalized
+	}
+	return normalized + "." + hex.EncodeToString([]byte(name))
 }
